@@ -652,6 +652,26 @@ def mw_oracle(c, r):
     return bad, kinds
 
 
+def remeasure(ctx, key, case, timed_out, lane):
+    """A hang / not-at-rest-in-time verdict of the schedule lanes is a statement about time: before it is reported the case is
+    run again ALONE (nothing else in the test process) up to 2 more times with deadlines stretched 4x (15 s -> 60 s).
+    A real deadlock or lost wake-up times out in every attempt; a writer that merely was not scheduled in time on a loaded
+    machine does not.  Returns the first result without a timeout (counted as unstable-under-load) or None."""
+    files = dict(DRV)
+    for fn in ("read", "rp", "stream", "listener", "mw", "mr", "all"):
+        files["zz_verif_%s_test.go" % fn] = "c16/%s_driver_test.go" % fn
+    for attempt in range(2):
+        rc, out, res = ctx.go_inpkg(".", "pkg/dtls", files, "^TestVerifC16All$", {key: [case]}, timeout=900,
+                                    env={"VERIF_C16_SLACK": "4"})
+        r = ((res or {}).get(key) or [None])[0]
+        if r is not None and not timed_out(r):
+            ctx.cov.setdefault("unstable_under_load", []).append(
+                {"lane": lane, "attempts_timed_out": attempt + 1, "case": {k: case[k] for k in list(case)[:8]}})
+            ctx.count(("unstable", lane, len(ctx.cov["unstable_under_load"])), nontrivial=False, kind=lane + "/unstable-under-load")
+            return r
+    return None
+
+
 def run_mw(ctx):
     cases = gen_mw_cases(ctx)
     res, out = yield ("go", "mw", cases)
@@ -659,8 +679,13 @@ def run_mw(ctx):
         driver_failed(ctx, "Go concurrent-writers driver", out)
         return
     terms = []
-    for c, r in zip(cases, res):
+    for i, (c, r) in enumerate(zip(cases, res)):
         bad, kinds = mw_oracle(c, r)
+        if (r.get("note") or "").strip():
+            r2 = remeasure(ctx, "mw", c, lambda x: bool((x.get("note") or "").strip()), "mw")
+            if r2 is not None:
+                r = res[i] = r2
+                bad, kinds = mw_oracle(c, r)
         ctx.count((c["k"], str(c["sizes"]), c["policy"], c["seed"], tuple(c["drains"]), c["drain_mode"]),
                   kind="mw/k=%d/%s/%s" % (c["k"], c["policy"], c["drain_mode"]))
         ctx.count(("mwk", c["k"], len(terms)), nontrivial=False, kind="mw/k=%d" % c["k"])
@@ -730,6 +755,12 @@ def run_mws(ctx):
     if res is None or len(res) != len(cases):
         driver_failed(ctx, "Go concurrent-writers stress driver", out)
         return
+    for i, (c, r) in enumerate(zip(cases, res)):
+        late = lambda x, c=c: bool(x["hung"]) or (c["drain"] == "fast" and x["returned"] != c["k"] * c["msgs"])
+        if late(r):
+            r2 = remeasure(ctx, "mws", dict(c, budget_ms=c["budget_ms"] * 4), late, "mw/stress")
+            if r2 is not None:
+                res[i] = r2
     mws_eval(ctx, cases, res, False)
     ctx.cov["mw_stress"] = [dict(c, **r) for c, r in zip(cases, res)][:6]
     yield ("coq", [])
@@ -874,7 +905,11 @@ def run_mr(ctx):
         driver_failed(ctx, "Go concurrent-readers driver", out)
         return
     terms, tcases = [], []
-    for c, r in zip(cases, res):
+    for i, (c, r) in enumerate(zip(cases, res)):
+        if (r.get("note") or "").strip():
+            r2 = remeasure(ctx, "mr", c, lambda x: bool((x.get("note") or "").strip()), "mr")
+            if r2 is not None:
+                r = res[i] = r2
         phases = r.get("phases") or []
         ctx.count((c["k"], c["mx"], str(c["script"]), str(c["sizes"]), c["policy"], c["seed"]), kind="mr/k=%d/%s" % (c["k"], c["policy"]))
         if any(any(ph.get("parked") or []) for ph in phases):
@@ -941,6 +976,11 @@ def run_mrs(ctx):
     if res is None or len(res) != len(cases):
         driver_failed(ctx, "Go concurrent-readers stress driver", out)
         return
+    for i, (c, r) in enumerate(zip(cases, res)):
+        if r["hung"] and not r.get("panics"):
+            r2 = remeasure(ctx, "mrs", c, lambda x: bool(x["hung"]), "mr/stress")
+            if r2 is not None:
+                res[i] = r2
     mrs_eval(ctx, cases, res, False)
     yield ("coq", [])
 
